@@ -184,9 +184,9 @@ inline void erase_at(T *first, SizeType count) {
 /// Requirements: n < count
 template <class T, class SizeType, typename std::enable_if<!std::is_trivially_copyable<T>::value, bool>::type = true>
 inline void fill(T *first, SizeType n, SizeType count, const T &v) {
-  // uninitialized fill first for slightly better exception safety
-  std::uninitialized_fill_n(first + n, count - n, v);
+  // assign first: if a copy throws afterwards, no constructed element is left beyond the size known by the caller
   std::fill_n(first, n, v);
+  std::uninitialized_fill_n(first + n, count - n, v);
 }
 
 template <class T, class SizeType, typename std::enable_if<std::is_trivially_copyable<T>::value, bool>::type = true>
